@@ -80,7 +80,7 @@ def mc_family(name):
 # ------------------------------------------------------------------------------------------------------
 
 def random_doc(rng, max_nodes=40, anim_styles=False, space=False, ruby=True, ruby_forms=False):
-  den = rng.choice([1, 1, 2, 3, 25, 1001] * 6 + [10 ** 9 + 7])
+  den = rng.choice([1, 1, 2, 3, 25, 1001] * 6 + [10 ** 9 + 7, 10 ** 9 + 7])
   D = 2 * den                                  # document times are even ticks
   span = 10 * den                              # times within [0, 10 s)
   fine = den > 10 ** 6                         # a grid finer than a nanosecond (times written at full double precision):
@@ -192,6 +192,27 @@ def random_doc(rng, max_nodes=40, anim_styles=False, space=False, ruby=True, rub
           # annotation may be presented for part of the time only, the base may disappear under it
           rk = add("ruby", p, timed=True, regable=False)
           loose = rng.random() < 0.5
+          if rng.random() < 0.35:
+            # group ruby: a base container and an annotation container, each with one or two members; timing / display on
+            # any of them (all bases may be gone while the annotation is still there, and the other way round)
+            for cont, member in (("rbc", "rb"), ("rtc", "rt")):
+              own = loose and rng.random() < 0.3
+              ck = add(cont, rk, timed=own, regable=False)
+              if not own:
+                disp[ck - 1] = ""
+                anim[ck - 1] = []
+              for _m in range(rng.choice([1, 2])):
+                own_m = loose and rng.random() < 0.5
+                mk = add(member, ck, timed=own_m, regable=False)
+                if not own_m:
+                  disp[mk - 1] = ""
+                  anim[mk - 1] = []
+                sp = add("span", mk, timed=False, regable=False)
+                disp[sp - 1] = ""
+                anim[sp - 1] = []
+                tk = add("text", sp)
+                txt[tk - 1] = 1
+            continue
           for sub in ("rb", "rt"):
             own = loose and rng.random() < (0.7 if sub == "rt" else 0.3)
             sk = add(sub, rk, timed=own, regable=False)
@@ -243,6 +264,14 @@ def random_doc(rng, max_nodes=40, anim_styles=False, space=False, ruby=True, rub
         "ranim": [steps() if rng.random() < 0.25 else [] for _ in range(nr)],
         "rbg": [rng.choice(["always", "whenActive"]) for _ in range(nr)],
         "idisp": rng.choice(["", "", "", "", "", "", "", "", "none", "auto"]), "D": D}
+  if fine and rng.random() < 0.7:
+    # the whole timeline shifted by whole seconds (see isdu.build_doc): large times on a grid finer than a nanosecond - two
+    # rationals that differ by less than the resolution of a float are still different times
+    ad["t0"] = rng.choice([10, 3600, 360000, 10 ** 7])
+    # (no animation on the shifted elements themselves - body and regions: their steps would be resolved against an interval
+    # that begins at t0, which is the shape of the known finding on animation steps of elements with a non-zero begin)
+    ad["anim"][0] = []
+    ad["ranim"] = [[] for _ in range(nr)]
   if space:
     ad["space"] = spc
     # literal texts with white space in all positions (exercises collapsing, empty-text and empty-span pruning)
